@@ -140,7 +140,7 @@ theorem C07_commit_reaches_deleted_log (s : St) (close : Bool) (h : s.obsolete =
     (ha : s.p.tryGet s.dc (s.p.insts j).key = some j) :
     (step (step s (.commit close)).1 (.read .P j c)).2
       = freshAnswer ((step s (.commit close)).1.db (s.p.insts j).key) c :=
-  (C07_commit_visible s close h).2.2.2.2.2 j c hj (by simp [St.reached, hd]) ha
+  (C07_commit_visible s close h).2.2.2.2.2 j c hj (by simp only [St.reached, hd, Bool.or_true]) ha
 
 /-- **No stale value — partial.**  For every history whose steps stay inside `good` (any length, any number
     of commit / rollback+begin / commit(close) points), in the state reached: every read of every live
